@@ -25,7 +25,11 @@ func genIsoPkg(r *Rng, i int) isoPkg {
 	if p.Lang == "python" {
 		p.Engine = "postgresql"
 	}
-	colTypes := []string{"bigint", "text", "int", "boolean", "varchar(20)"}
+	// (types whose Go / Kotlin / Python spelling needs an import, so that the import sets of the packages differ)
+	colTypes := []string{"bigint", "text", "int", "boolean", "varchar(20)", "timestamptz", "date", "uuid", "numeric(10,2)", "timestamp", "time"}
+	if p.Engine == "mysql" {
+		colTypes = []string{"bigint", "text", "int", "boolean", "varchar(20)", "datetime", "date", "decimal(10,2)", "timestamp", "time"}
+	}
 	var cols []string
 	nc := 2 + r.Intn(3)
 	for c := 0; c < nc; c++ {
@@ -221,8 +225,8 @@ func runC19(r *Rng, n int, tier string) {
 	}
 	// ---- concurrency: k generations at once, compared with the serial results
 	nc := n / 4
-	if nc < 3 {
-		nc = 3
+	if nc < 4 {
+		nc = 4
 	}
 	for i := 0; i < nc; i++ {
 		k := 2 + r.Intn(15)
@@ -234,7 +238,16 @@ func runC19(r *Rng, n int, tier string) {
 			files := map[string]string{}
 			var entries []string
 			for q := 0; q < 1+r.Intn(2); q++ {
-				entries = append(entries, genIsoPkg(r, q).entry(files))
+				pk := genIsoPkg(r, q)
+				// rounds in which every run uses the SAME back end (its templates, importer and helpers are what
+				// concurrent runs could share), next to mixed rounds
+				if lang := []string{"", "kotlin", "python", "go"}[i%4]; lang != "" && !(lang == "python" && pk.Engine != "postgresql") {
+					pk.Lang = lang
+					if lang != "go" {
+						pk.GoExtra = ""
+					}
+				}
+				entries = append(entries, pk.entry(files))
 			}
 			files["sqlc.json"] = confV2(entries)
 			inputs = append(inputs, files)
